@@ -106,7 +106,10 @@ def run(tier, seed, replay=None):
         feats = [f for f in combo.split(",") if f] + ["verif"]
         binary = common.build_harness(features=feats, tag="seqdrv-feat-" + (combo.replace(",", "_") or "none"))
         tag = "C18-%s-%d-%s" % (tier, seed, combo.replace(",", "_") or "none")
-        cpath, tpath, verdict = seqcheck.run_cases(binary, run_list, tag)
+        # only the global Deferrer keeps strays until the next Stakker::new (the others free them with the last Deferrer)
+        default_like = not any(f in combo for f in ("inline-deferrer", "multi-stakker", "multi-thread", "no-unsafe"))
+        rl = run_list if default_like else [dict(c, noflushcheck=True) for c in run_list]
+        cpath, tpath, verdict = seqcheck.run_cases(binary, rl, tag)
         lines = canon([norm(l) for l in open(tpath).read().splitlines()])
         nev += len(lines)
         bad = [v for v in verdict["violations"] if v["prop"] == "HARNESS"]
